@@ -1082,8 +1082,8 @@ func run(c *Ctx) error {
 	// the direct oracle runs on every case; the Coq model is evaluated on the first
 	// mDerive / mSign / mKs cases of each kind (the Coq front end needs about half a second
 	// per case for the tables)
-	nDerive, mDerive := c.N(3000, 20000), c.N(130, 600)
-	nSign, mSign := c.N(1200, 8000), c.N(70, 300)
+	nDerive, mDerive := c.N(3000, 12000), c.N(130, 600)
+	nSign, mSign := c.N(1200, 5000), c.N(70, 300)
 	nKs, mKs := c.N(400, 2500), c.N(70, 300)
 	nHsm := c.N(3, 12)
 	for i := 0; i < nDerive; i++ {
